@@ -241,39 +241,42 @@ for _p in ["C02", "C04", "C05", "C06", "C07", "C09", "C10", "C11", "C13", "C14",
 # Clauses added after the texts above were written (rules prompted by the seeded changes, DESIGN.md section 8).
 # tools/gen_manifest.py inserts "Also decided: ..." before "Not decided:" and extends design_ref / technique.
 ADDENDA = {
-    "C02": ("R02.3, R02.4, R02.5; section 8",
+    "C02": ("R02.3-R02.6; section 8",
             "every site that marks or counts a coercion constructor is behind `not explicit`; the two constness predicates that "
-            "decide const_ok judge a pointer and a reference by is_const(target) and look through const/typedef wrappers; the true-divide mirror slots take the wrapper kind (plain / in-place) of the slot they mirror",
+            "decide const_ok judge a pointer and a reference by is_const(target) and look through const/typedef wrappers; the true-divide mirror slots take the wrapper kind (plain / in-place) of the slot they mirror; bool ranks below every numeric type in the overload order and the integer rank excludes bool",
             "gated reachability; switch-arm canonical forms"),
-    "C04": ("R04.6, R04.7, R04.8; section 8",
+    "C04": ("R04.6-R04.9; section 8",
             "access labels install their own visibility on the current scope and __begin_publish/__end_publish save from and restore "
             "into the current scope; a type rebuilt by resolve_type()/substitute_decl() keeps every attribute (copy from *this, or "
-            "every member carried); every in_ignorefile() site passes the spelling as referenced",
+            "every member carried); every in_ignorefile() site passes the spelling as referenced; const/pointer/reference/typedef arms of involves_protected/unpublished are pure recursion",
             "grammar-action rules; rebuild completeness over record fields"),
     "C05": ("R05.4, R05.5, R05.6, R05.7; section 8",
             "base-class derivations are recorded only for accessible bases with upcast/downcast roles, flags and the virtual-base "
             "exclusion in place, wrapper parameters take their names from the loop's own element; every call recording a member of "
             "the class is dominated by the virtual-function inference that sets SC_virtual on keyword-less overrides; an unspecified base access defaults from the deriving class's own class-key (found F-C05a); the builder's by-name tables are keyed by globally scoped names",
             "role pairing; call-graph must-pass-through"),
-    "C06": ("R06.4, R06.5, R06.6, printer-field clause of R06.1; section 8",
+    "C06": ("R06.4-R06.7, printer-field clause of R06.1; section 8",
             "keyword tokens round-trip grammar -> enumerator -> printer; rebuilt types/parameter lists keep every member (found F-C06b); "
-            "the change-accumulator flags of substitute_decl()/resolve_type() are monotone; every field a printer reads is compared by the uniquifier (found F-C06c)",
+            "the change-accumulator flags of substitute_decl()/resolve_type() are monotone; every field a printer reads is compared by the uniquifier (found F-C06c); template-argument terminator tests hold for a negative paren counter",
             "CFG reachability between assignments"),
-    "C07": ("R07.6, R07.7, conditional clause of R07.2; section 8",
+    "C07": ("R07.6-R07.12, conditional clause of R07.2; sections 8, 9",
             "an unevaluable enumerator / array bound is not stored as a number; the conditional alternative's rule precedence lets the "
-            "else-branch extend right over every binary operator and a further `?`; a plain character literal's value is the sign-extended byte (evaluated from the cast chain; prefixed literals: known finding F-C07e)",
+            "else-branch extend right over every binary operator and a further `?`; a plain character literal's value is the sign-extended byte (evaluated from the cast chain; prefixed literals: known finding F-C07e); digit strings, digit separators, implicit enumerator successors, cast widths and the conditional's condition follow the language rules (found and fixed F-C07c/g/h/i, F-C06d; literal narrowing F-C07f known)",
             "bison precedence resolution (rule level vs look-ahead token)"),
-    "C10": ("R10.3, R10.4; section 8",
+    "C10": ("R10.3-R10.5, corrected X clause of R10.1; sections 8, 9",
             "the finders behind the predicates select members by C++'s criterion: default constructor = no parameters or the first "
             "defaulted; copy/move finders behind their flag; check_for_constructor sets the flags on the right value-category / "
-            "member-kind edge and not only for one-parameter members (found F-C10a); match_virtual_override ignores override/final on both sides (evaluated on all flag pairs)",
+            "member-kind edge and not only for one-parameter members (found F-C10a); match_virtual_override ignores override/final on both sides (evaluated on all flag pairs); abstractness is judged for complete objects only, const members without initializer delete the implicit default constructor, the builder leaves parsed declarations intact (found and fixed F-C10b/c/d)",
             "gated reachability over the finders and the classifier"),
     "C11": ("R11.5, R11.6, on-every-path clause of R11.1; section 8",
             "every map_from rewrite runs on every path through its remap_indices; on every returning path of hash_function_signature the "
             "stored hash is the registered one; the names make_wrapper_entry copies into the record are not rewritten afterwards",
             "post-dominance; must-assignment analysis"),
-    "C12": ("R12.5; section 8",
-            "the count-controlled byte-copy loops of idf_input_string have no branch depending on the byte read",
+    "C09": ("R09.3, R09.4; sections 8, 9",
+            "a new manifest is registered under its own parsed name (#define and both tools' -D); numbers in an #if expression are stepped over whole when macros are expanded (found F-C09a: `#if 0x10 == 16` was skipped)",
+            "key-role check; scanner-branch structure"),
+    "C12": ("R12.5, R12.6; section 8",
+            "the count-controlled byte-copy loops of idf_input_string have no branch depending on the byte read; a string read back always replaces its destination (also for length 0)",
             "loop-condition data dependence"),
     "C13": ("ordering clauses of R13.3; section 8",
             "the `was not global` test is evaluated before merge_with merges the flags",
@@ -281,20 +284,20 @@ ADDENDA = {
     "C14": ("R14.6, non-injective-key clause of R14.5c/d; section 8",
             "a comparator that ends in a known non-injective key (unscoped name, a count) is not total; every scalar member is definitely assigned by every constructor",
             "comparator key deny-list"),
-    "C15": ("R15.6-R15.11, resize in R15.2, INT_MIN / -1 in R15.3; section 8",
-            "resize(size()-k) needs the dominating size test like substr/erase; signed / and % are guarded against INT_MIN / -1; scanner and token loops cannot cycle at end of input; string cursors are not used past size() after an untested increment (found F-C15f/g); _infile is dereferenced only behind a null test (found F-C15h; F-C15i by the token-loop rule)",
+    "C15": ("R15.6-R15.14, resize in R15.2, INT_MIN / -1 in R15.3; sections 8, 9",
+            "resize(size()-k) needs the dominating size test like substr/erase; signed / and % are guarded against INT_MIN / -1; scanner and token loops cannot cycle at end of input; string cursors are not used past size() after an untested increment (found F-C15f/g); _infile is dereferenced only behind a null test (found F-C15h; F-C15i by the token-loop rule); nothing reports through current_lexer after its restore; the parser's construction statics are stacked (found F-C15j); predicates recursing over member types need a cycle guard (F-C15k known)",
             "gated reachability"),
     "C16": ("R16.3, cycle-edge clause of R16.2; section 8",
             "on the cycle branch only an edge cycle[i] -> cycle[i+1] of the reported cycle may be given up; every contributing library becomes a key of the dependency map",
             "operand-role check on the erase site"),
-    "C17": ("located-path clause of R17.1; section 8",
-            "the includer's directory is the dirname of the located path (CPPFile::_filename), not of its spelling in the #include",
+    "C17": ("R17.5, located-path clause of R17.1; section 8",
+            "the includer's directory is the dirname of the located path (CPPFile::_filename), not of its spelling in the #include; command-line files are registered before any of them is parsed",
             "field-resolved probe classification"),
-    "C18": ("R18.4; section 8",
-            "the boundary and decode formulas of DiyFp, evaluated from their expression trees at sample points, equal Grisu2's definitions",
+    "C18": ("R18.4, R18.5; section 8",
+            "the boundary and decode formulas of DiyFp, evaluated from their expression trees at sample points, equal Grisu2's definitions; the exponent sign test accepts both + and -",
             "expression-tree evaluation against a reference formula"),
-    "C19": ("close/bad distinction of o2; section 8",
-            "bad() counts as the failure test only after flush(), not after close(); the status variable is never reset to zero by a later success",
+    "C19": ("R19.b, close/bad distinction of o2; section 8",
+            "bad() counts as the failure test only after flush(), not after close(); the status variable is never reset to zero by a later success; nothing writes on a stream buffer directly (failures there do not set badbit)",
             "typestate over stream phases"),
     "C20": ("R20.7, R20.8, local indices in R20.1; section 8",
             "subscripts indexed by a local (e.g. the out-parameter of find_module) are bounded like those indexed by a parameter; "
